@@ -56,7 +56,7 @@ func ParseFinalRegistrySource(given string) (RegistrySourceFinal, error) {
 			addr = fmt.Sprintf("%s//%s", addr, matches[4])
 		}
 	}
-	version, err := versions.ParseVersion(ver)
+	version, err := parseVersion(ver)
 	if err != nil {
 		return RegistrySourceFinal{}, fmt.Errorf("invalid version: %w", err)
 	}
@@ -110,3 +110,15 @@ func (s RegistrySourceFinal) FinalSourceAddr(realSource RemoteSource) RemoteSour
 // The package address never contains "@", so the version starts at the first
 // "@" (a sub-path may legitimately contain further "@" characters).
 var finalRegistrySourcePattern = regexp.MustCompile(`^(.+?)@([^/]+)(//(.+))?$`)
+
+// parseVersion is [versions.ParseVersion], except that a number too large for
+// a version segment is reported as an error: the underlying parser panics on
+// it.
+func parseVersion(s string) (v versions.Version, err error) {
+	defer func() {
+		if r := recover(); r != nil {
+			v, err = versions.Unspecified, fmt.Errorf("invalid version %q: %v", s, r)
+		}
+	}()
+	return versions.ParseVersion(s)
+}
